@@ -45,7 +45,7 @@ CONSTANTS Ent,        \* entry ids (small integers)
           Defects,    \* static admission defects a submission may carry (C22 rows)
           MaxRm,      \* bound on the size of an explicit removal list
           QueryOn,    \* producer-list queries are part of Next
-          NodeRig,    \* generate only what a full node can be made to do: Reorg instead of DelBlock, no lone sweep
+          NodeRig,    \* generate only what a full node can be made to do: Reorg instead of a lone DelBlock, no empty block
           SubW,       \* weight of good submissions in random generation (1 in exhaustive runs)
           MaxOps,     \* bound on the number of steps (0 = unbounded)
           EmitOn      \* build the JSON action label
@@ -315,7 +315,7 @@ Next == \/ \E w \in 1..SubW : \E e \in Ent : Submit(e, None)
         \/ (~NodeRig /\ DelBlock)
         \/ \E b \in BlkCands : Reorg(b)
         \/ \E S \in RmCands : Remove(S)
-        \/ (~NodeRig /\ SweepNow)
+        \/ SweepNow
         \/ Tick
         \/ (QueryOn /\ \E n \in 1..(Cap + 1) : \E excl \in QryCands : GetTxList(n, excl))
 
